@@ -20,15 +20,23 @@ import NeumannModel.Common.FramedLog
                                        (append_leader_entries): new index ⇒ LogEntryFull;
                                        term conflict ⇒ LogTruncate{from_index}, LogEntryFull
         propose                        LogEntryFull(len+1)
-        install_snapshot_entries       TermAndVote(last_term, None) if higher term; the log is
-                                       REPLACED in memory and nothing about it is logged.
+        install_snapshot (+ install_snapshot_entries, after fix 73e56b11)
+                                       rejected without any effect when the snapshot is empty, its
+                                       last entry does not carry the metadata's index / term, or it
+                                       is not newer than the last installed one; otherwise
+                                       TermAndVote(last_term, None) if higher term, then one
+                                       LogEntryFull per snapshot entry (persist_log_entry), then
+                                       LogTruncate{from_index: last.index + 1}; only then the log
+                                       is replaced in memory.  (`installSnapshotOld` is the code
+                                       before the fix: nothing about the log was logged.)
   Modelling decisions: node ids are `Nat`; a log entry is `(index, term, cmd)` and its
   `entry_data` is the opaque list `[index, term, cmd]` (bitcode round-trip assumed; checked on
   the real node by the correspondence run); `log_base_index = 0` (no compaction);
   WAL appends succeed (the failure branches return early without changing state);
   `is_peer_healthy` = true and geometric tie-break off (harness config).
   AppendEntries carries `(term, cmd)` pairs, the index of the k-th is `prev_log_index+1+k`
-  (what a leader sends).  Import-free apart from Common.FramedLog.
+  (what a leader sends); a snapshot carries the entries `1..n` (what `create_snapshot` of an
+  uncompacted log produces).  Import-free apart from Common.FramedLog.
 -/
 namespace Neumann.RaftWal
 
@@ -132,6 +140,8 @@ structure Node where
   votedFor : Option Nat := none
   log : List LogEntry := []
   role : Role := .follower
+  /-- `snapshot_state.last_snapshot.last_included_index` (volatile: a restart forgets it) -/
+  snapIdx : Option Nat := none
   deriving DecidableEq, Repr
 
 /-- `RaftNode::with_wal` after `from_wal` succeeded -/
@@ -221,6 +231,12 @@ def preHigher (n : Node) (t : Nat) (r : Role) : List Micro × Node :=
   if t > n.term then ([.wal (.termAndVote t none)], { n with term := t, votedFor := none, role := r })
   else ([], n)
 
+/-- "incoming is not newer": `metadata.last_included_index <= existing.last_included_index` -/
+def snapStale (existing : Option Nat) (incoming : Nat) : Bool :=
+  match existing with
+  | some x => decide (incoming ≤ x)
+  | none => false
+
 /-- one handler call: WAL records first, then the acknowledgements it sends -/
 def step (n : Node) : Event → StepOut
   | .startElection =>
@@ -274,11 +290,30 @@ def step (n : Node) : Event → StepOut
       { micros := [.wal (.logEntryFull e.index e.term (encEntry e)), .ackTerm n.term, .ackLog [e]],
         node := { n with log := n.log ++ [e] }, reply := .proposed e.index }
     else { micros := [], node := n, reply := .notLeader }
-  | .installSnapshot _lastIdx lastTerm ents =>
-    -- install_snapshot_entries (validation of hash / last entry done by the caller)
-    let m1 : List Micro := (preHigher n lastTerm n.role).1
-    let n1 : Node := (preHigher n lastTerm n.role).2
-    { micros := m1 ++ [.ackTerm n1.term], node := { n1 with log := mkEntries 0 ents }, reply := .snapshot true }
+  | .installSnapshot lastIdx lastTerm ents =>
+    let snap := mkEntries 0 ents
+    -- install_snapshot: "snapshot contains no entries" / index mismatch / term mismatch
+    match snap.getLast? with
+    | none => { micros := [], node := n, reply := .snapshot false }
+    | some last =>
+      if last.index ≠ lastIdx ∨ last.term ≠ lastTerm then
+        { micros := [], node := n, reply := .snapshot false }
+      -- install_snapshot_entries: out-of-order snapshot (incoming index ≤ existing index)
+      else if snapStale n.snapIdx lastIdx then
+        { micros := [], node := n, reply := .snapshot false }
+      else
+        let m1 : List Micro := (preHigher n lastTerm n.role).1
+        let n1 : Node := (preHigher n lastTerm n.role).2
+        { micros := m1 ++ (snap.map fun e => WalEntry.logEntryFull e.index e.term (encEntry e)).map Micro.wal
+                    ++ [.wal (.logTruncate (last.index + 1)), .ackTerm n1.term, .ackLog snap],
+          node := { n1 with log := snap, snapIdx := some lastIdx }, reply := .snapshot true }
+
+/-- `install_snapshot_entries` BEFORE fix 73e56b11 (kept only for
+    `snapshot_install_not_durable_witness`): the log is replaced in memory, nothing about it is logged. -/
+def installSnapshotOld (n : Node) (lastTerm : Nat) (ents : List (Nat × Nat)) : StepOut :=
+  let m1 : List Micro := (preHigher n lastTerm n.role).1
+  let n1 : Node := (preHigher n lastTerm n.role).2
+  { micros := m1 ++ [.ackTerm n1.term], node := { n1 with log := mkEntries 0 ents }, reply := .snapshot true }
 
 /-! ### obligations (ghost state) and executions with crashes -/
 
@@ -288,8 +323,13 @@ structure Ghost where
   acked : List LogEntry := []
   deriving Repr
 
+/-- An obligation about an acknowledged entry ends when the durable log starts to drop it on the
+    order of a later leader: a conflict truncation at or below its index, or a snapshot entry
+    with the same index and a different content written over it. -/
 def microG (g : Ghost) : Micro → Ghost
   | .wal (.logTruncate f) => { g with acked := g.acked.filter (fun e => e.index < f) }
+  | .wal (.logEntryFull i _ d) =>
+    { g with acked := g.acked.filter (fun e => decide (e.index ≠ i) || decide (encEntry e = d)) }
   | .wal _ => g
   | .ackTerm t => { g with actedTerm := max g.actedTerm t }
   | .ackVote t c => { g with votes := (t, c) :: g.votes }
@@ -314,6 +354,10 @@ inductive Act where
   | ev (e : Event)                 -- a handler runs to completion
   | crash (e : Event) (k : Nat)    -- handler `e` starts, the process dies after `k` micro steps; restart
   deriving Repr
+
+/-- a handler ran to completion with this outcome -/
+def applyOut (σ : Sys) (o : StepOut) : Sys :=
+  { dur := σ.dur ++ recs o.micros, node := o.node, ghost := microAllG σ.ghost o.micros }
 
 def execAct (σ : Sys) : Act → Sys
   | .ev e =>
